@@ -236,8 +236,12 @@ class Check:
             "wall_s": round(wall, 2),
             "violations": len(self.violations),
         }
-        (VERIF / "evidence").mkdir(exist_ok=True)
-        (VERIF / "evidence" / f"{self.pid}.json").write_text(json.dumps(ev, indent=1, default=_jd))
+        # evidence describes /repo itself: a run pointed at another tree (selftest/regress.sh, VERIF_REPO) writes its
+        # description elsewhere so that the committed evidence is never that of a modified copy
+        evdir = Path(os.environ.get("VERIF_EVIDENCE_DIR", "")) if os.environ.get("VERIF_EVIDENCE_DIR") else (
+            VERIF / "evidence" if REPO.resolve() == Path("/repo") else Path(tempfile.gettempdir()) / "verif-evidence-other-tree")
+        evdir.mkdir(parents=True, exist_ok=True)
+        (evdir / f"{self.pid}.json").write_text(json.dumps(ev, indent=1, default=_jd))
         self.cleanup()
         print(f"[{self.pid}] tier={self.tier} seed={self.seed} evaluations={self.evaluations} "
               f"nontrivial={len(self._nontrivial)} states={self.states} traces={self.traces} "
